@@ -186,4 +186,43 @@ theorem afb1dT_per_channel (ax : Axis) (mode : Mode) (w0 w1 : List R) (x y : Lis
     have h2 : (2*c+1) / 2 = c := by omega
     simpa [h1, h2] using this
 
+omit [CommRing R] in
+theorem mapM_id_map_some {β : Type} : ∀ (l : List β), (l.map some).mapM id = some l
+  | [] => by simp
+  | a :: l => by simp [mapM_id_map_some l]
+
+omit [CommRing R] in
+theorem map_tab {α β : Type} (n : Nat) (f : Nat → α) (g : α → β) : (tab n f).map g = tab n (fun i => g (f i)) := by
+  simp [tab, List.map_map, Function.comp_def]
+
+/-- constructive form of the per-channel statement, for EVERY channel count `C`: if the two one-channel
+operators return on every channel, `afb1d` on the stack returns exactly their results interleaved
+(`[lo₀, hi₀, lo₁, hi₁, …]`) — nothing else enters an output channel. -/
+theorem afb1dT_total (ax : Axis) (mode : Mode) (w0 w1 : List R) (x : List (Img R)) (g0 g1 : Img R → Img R)
+    (h : ∀ c < x.length, alongO ax (afb1dOne mode w0) (x.getD c []) = some (g0 (x.getD c [])) ∧
+                         alongO ax (afb1dOne mode w1) (x.getD c []) = some (g1 (x.getD c []))) :
+    afb1dT ax mode w0 w1 x
+      = some (tab (2 * x.length) fun o => if o % 2 = 0 then g0 (x.getD (o/2) []) else g1 (x.getD (o/2) [])) := by
+  unfold afb1dT grouped
+  simp only []
+  rw [weights_length]
+  have e : (tab (2 * x.length) fun o =>
+        (fun w ch => alongO ax (afb1dOne mode w) ch) (((List.replicate x.length [w0, w1]).flatten).getD o default)
+          (x.getD (o / (2 * x.length / x.length)) default))
+      = (tab (2 * x.length) fun o => if o % 2 = 0 then g0 (x.getD (o/2) []) else g1 (x.getD (o/2) [])).map some := by
+    rw [map_tab]
+    apply tab_ext rfl
+    intro o ho
+    have hpos : 0 < x.length := by omega
+    have hdiv : 2 * x.length / x.length = 2 := Nat.mul_div_cancel _ hpos
+    show alongO ax (afb1dOne mode (((List.replicate x.length [w0, w1]).flatten).getD o []))
+        (x.getD (o / (2 * x.length / x.length)) []) = _
+    rw [weights_get w0 w1 x.length o ho, hdiv]
+    have hc := h (o/2) (by omega)
+    split
+    · exact hc.1
+    · exact hc.2
+  rw [e]
+  exact mapM_id_map_some _
+
 end WV.C07
